@@ -68,6 +68,12 @@ def run(ctx):
         own_counters(ctx, cname)
         foreign(ctx, cname)
         construction(ctx, cname)
+    # "its election applied to the members": the four documented elections themselves (the rules of C13)
+    from . import c13
+    c13.majority(ctx)
+    c13.minimum(ctx)
+    c13.ordered(ctx)
+    c13.confirmed(ctx)
 
 
 def fanout(ctx, cname, meth):
